@@ -143,6 +143,54 @@ structure LadderExt (X : Ext) (ops : Ops σ R) (P : Pres σ R) (fl : LadderFlags
   hglob : X "global mesh_protocols" [] = .ok (.record [("StructuredMesh", smV)])
   hinst : ∀ s, X "isinstance" [domV ops P s, smV] = .ok (.bool (ops.structured s))
 
+/-! ### the concrete model FcModel/Ladder.lean as an instance -/
+
+/-- the operations of FcModel/Ladder.lean; a state is (is it the source side?, side): the two sides may use different
+    argsort routines.  Meshes of the model are unstructured; the model's transformations other than the dimension
+    extension and the point sort do not fail. -/
+def concOps (asS asR : List Int → List Nat) (h : List Nat → Int) : Ops (Bool × Side) C02.Outcome where
+  run a b := runComparison a.2 b.2
+  ok o := o.domainEq
+  dim a := a.2.f.mesh.dim
+  structured _ := false
+  extend d a := match extendDim d a.2.f with
+    | some f => .ok (a.1, { a.2 with f := f })
+    | none => .error "ValueError"
+  strip a := .ok (a.1, { a.2 with f := stripOrphans (if a.1 then asS else asR) a.2.f })
+  sortPoints a := match sortPoints (if a.1 then asS else asR) a.2.tol a.2.f with
+    | some f2 => .ok (a.1, { a.2 with f := f2, permuted := true })
+    | none => .error "ValueError"
+  sortCells a := .ok (a.1, { a.2 with f := sortCells (if a.1 then asS else asR) h a.2.f })
+
+section
+variable (asS asR : List Int → List Nat) (h : List Nat → Int)
+theorem concOps_run (a b : Bool × Side) : (concOps asS asR h).run a b = runComparison a.2 b.2 := rfl
+theorem concOps_ok (o : C02.Outcome) : (concOps asS asR h).ok o = o.domainEq := rfl
+theorem concOps_dim (a : Bool × Side) : (concOps asS asR h).dim a = a.2.f.mesh.dim := rfl
+theorem concOps_structured (a : Bool × Side) : (concOps asS asR h).structured a = false := rfl
+theorem concOps_extend (d : Nat) (a : Bool × Side) : (concOps asS asR h).extend d a =
+    match extendDim d a.2.f with
+    | some f => .ok (a.1, { a.2 with f := f })
+    | none => .error "ValueError" := rfl
+theorem concOps_strip (a : Bool × Side) : (concOps asS asR h).strip a =
+    .ok (a.1, { a.2 with f := stripOrphans (if a.1 then asS else asR) a.2.f }) := rfl
+theorem concOps_sortPoints (a : Bool × Side) : (concOps asS asR h).sortPoints a =
+    match sortPoints (if a.1 then asS else asR) a.2.tol a.2.f with
+    | some f2 => .ok (a.1, { a.2 with f := f2, permuted := true })
+    | none => .error "ValueError" := rfl
+theorem concOps_sortCells (a : Bool × Side) : (concOps asS asR h).sortCells a =
+    .ok (a.1, { a.2 with f := sortCells (if a.1 then asS else asR) h a.2.f }) := rfl
+end
+
+/-- what FcModel/Ladder.lean's result type keeps of an abstract result -/
+def forget {σ : Type} : LRes σ C02.Outcome → LadderRes
+  | .done rung o _ _ _ => .done rung o
+  | .raised _ => .raised
+
+theorem ite_ne_of {α : Type} {c : Prop} [Decidable c] {a b x : α} (ha : a ≠ x) (hb : b ≠ x) :
+    (if c then a else b) ≠ x := by
+  split <;> assumption
+
 theorem int_max_cast (a b : Nat) : (if (a : Int) < (b : Int) then (b : Int) else (a : Int)) = ((max a b : Nat) : Int) := by
   simp only [Nat.max_def]
   split <;> split <;> omega
